@@ -313,6 +313,11 @@ pub fn run(ctx: &Ctx, rep: &mut Report) {
                     continue;
                 }
                 let (xa, xb) = (to_f64(a), to_f64(b));
+                if f.arity == 1 {
+                    rt::doing_set(&format!("P32E2::{}", f.name), &[a as u64]);
+                } else {
+                    rt::doing_set(&format!("P32E2::{}", f.name), &[a as u64, b as u64]);
+                }
                 rt::enter(slot, usize::MAX - 8, a as u64, b as u64, 0);
                 let res = rt::guarded(|| {
                     if f.arity == 1 {
